@@ -61,7 +61,7 @@ func runControl(id string, c Control, base map[string]bool) (res ControlResult) 
 		return
 	}
 	p := LoadProgram(repoDir(), ov, "", "")
-	defer programs.Delete(p.SSA)
+	defer releaseProgram(p)
 	r := NewReport(id, "control")
 	r.cur = p.Config
 	runProp(id, p, r)
@@ -73,12 +73,19 @@ func runControl(id string, c Control, base map[string]bool) (res ControlResult) 
 		}
 	}
 	res.Result = "silent"
+	if os.Getenv("VGW_DEBUG") != "" {
+		for _, o := range r.Obligs {
+			if o.Status != "ok" {
+				fmt.Fprintf(os.Stderr, "  [silent control %q] %s %s %s %s\n", c.Name, o.Status, o.Rule, o.Key, o.Detail)
+			}
+		}
+	}
 	return
 }
 
 func baselineNonOK(id string) map[string]bool {
 	p := LoadProgram(repoDir(), nil, "", "")
-	defer programs.Delete(p.SSA)
+	defer releaseProgram(p)
 	r := NewReport(id, "control")
 	r.cur = p.Config
 	runProp(id, p, r)
